@@ -473,6 +473,15 @@ func (in *Interp) assume(c *Term) {
 // check discharges an obligation.
 func (in *Interp) check(c *Term, msg string) {
 	p := in.path
+	if strings.HasPrefix(msg, "TWIN:") {
+		// deliberately false twin: must be violated somewhere; never constrains the path
+		if c.IsFalse() || (!c.IsTrue() && in.ex.Replay == nil && in.sol.CheckWith(in.tb.Not(c)) == Sat) {
+			in.ex.mu.Lock()
+			in.ex.ExpectSeen[msg] = true
+			in.ex.mu.Unlock()
+		}
+		return
+	}
 	p.checks++
 	if c.IsTrue() {
 		p.trivial++
@@ -568,7 +577,7 @@ func (in *Interp) reportViolation(kind, msg, site, stack string) {
 	}
 	v.Trace = append([]uint64(nil), in.path.trace...)
 	v.Choices = append([]uint64(nil), in.path.choices...)
-	v.Key = kind + "|" + msg + "|" + site
+	v.Key = kind + "|" + msg + "|" + site + "|" + stackHead(stack, 3)
 	ex.mu.Lock()
 	defer ex.mu.Unlock()
 	if strings.HasPrefix(msg, "TWIN:") {
@@ -584,6 +593,14 @@ func (in *Interp) reportViolation(kind, msg, site, stack string) {
 	if len(ex.Violations) >= 20 {
 		ex.stopped = true
 	}
+}
+
+func stackHead(stack string, n int) string {
+	parts := strings.Split(stack, " <- ")
+	if len(parts) > n {
+		parts = parts[:n]
+	}
+	return strings.Join(parts, " <- ")
 }
 
 // Summary returns a sorted list of inconclusive reasons (deduplicated).
